@@ -1,5 +1,6 @@
 From Coq Require Import List ZArith NArith Bool QArith Qround Qpower Lia Psatz.
 From WTF Require Import Model.Validate Model.Text Model.Retry.
+From Coq Require Import Lqa.
 Import ListNotations.
 
 Section RetryProofs.
@@ -71,27 +72,34 @@ Proof.
   intros F L S. unfold load_with_retry. destruct (attempts_of c - 1)%nat; simpl; rewrite F, L, S; simpl; auto.
 Qed.
 
-(* waits never decrease and never exceed the configured maximum (factor >= 1, base >= 0) *)
-Lemma delay_capped c k : (delay c k <= r_max c)%Q.
+(* waits never decrease, are never negative and never exceed the configured maximum (factor >= 1, base >= 0) *)
+Ltac qb := repeat match goal with
+  | H : Qle_bool _ _ = true |- _ => apply Qle_bool_iff in H
+  | H : Qle_bool ?a ?b = false |- _ => assert (~ (a <= b)%Q) by (rewrite <- Qle_bool_iff; congruence); clear H
+  end.
+
+Lemma clampQ_range d cap : (0 <= clampQ d cap)%Q /\ ((0 <= cap)%Q -> (clampQ d cap <= cap)%Q) /\ ((cap < 0)%Q -> clampQ d cap == 0).
 Proof.
-  unfold delay. destruct (Qle_bool (r_base c * Qpower (r_factor c) (Z.of_nat (k - 1))) (r_max c)) eqn:E.
-  - apply Qle_bool_iff. exact E.
-  - apply Qle_refl.
+  unfold clampQ. destruct (Qle_bool 0 d) eqn:E0;
+  [destruct (Qle_bool d cap) eqn:E1 | destruct (Qle_bool 0 cap) eqn:E1]; try destruct (Qle_bool 0 cap) eqn:E2; qb; repeat split; intros; try lra.
 Qed.
+
+Lemma clampQ_mono d d' cap : (d <= d')%Q -> (clampQ d cap <= clampQ d' cap)%Q.
+Proof.
+  intros H. unfold clampQ.
+  destruct (Qle_bool 0 d) eqn:A0, (Qle_bool 0 d') eqn:B0;
+  repeat match goal with |- context [Qle_bool ?a ?b] => let E := fresh "E" in destruct (Qle_bool a b) eqn:E end; qb; lra.
+Qed.
+
+Lemma delay_range c k : (0 <= delay c k)%Q /\ ((0 <= r_max c)%Q -> (delay c k <= r_max c)%Q) /\ ((r_max c < 0)%Q -> delay c k == 0).
+Proof. unfold delay. apply clampQ_range. Qed.
 
 Lemma Qpower_mono f (a b : nat) : (1 <= f)%Q -> (a <= b)%nat -> (Qpower f (Z.of_nat a) <= Qpower f (Z.of_nat b))%Q.
 Proof. intros F H. apply Qpower_le_compat_l; [lia | exact F]. Qed.
 
 Lemma delay_monotone c (a b : nat) : (1 <= r_factor c)%Q -> (0 <= r_base c)%Q -> (1 <= a <= b)%nat -> (delay c a <= delay c b)%Q.
 Proof.
-  intros F B H. unfold delay.
-  set (da := (r_base c * r_factor c ^ Z.of_nat (a - 1))%Q). set (db := (r_base c * r_factor c ^ Z.of_nat (b - 1))%Q).
-  assert (M : (da <= db)%Q).
-  { unfold da, db. rewrite !(Qmult_comm (r_base c)). apply Qmult_le_compat_r; [|exact B]. apply Qpower_mono; [exact F | lia]. }
-  destruct (Qle_bool da (r_max c)) eqn:Ea, (Qle_bool db (r_max c)) eqn:Eb.
-  - exact M.
-  - apply Qle_bool_iff. exact Ea.
-  - apply Qle_bool_iff in Eb. assert (Qle_bool da (r_max c) = true) by (apply Qle_bool_iff; eapply Qle_trans; eauto). congruence.
-  - apply Qle_refl.
+  intros F B H. unfold delay. apply clampQ_mono.
+  rewrite !(Qmult_comm (r_base c)). apply Qmult_le_compat_r; [|exact B]. apply Qpower_mono; [exact F | lia].
 Qed.
 End RetryProofs.
